@@ -21,17 +21,20 @@ from ..explore import Stats, explore_parallel
 from ..vloop import HarnessError, timer_name
 from ..world import ConnWorld, mk
 
-ADDR = {1: 0xAABBCCDDEE01, 2: 0xAABBCCDDEE02}
+ADDR = {1: 0xAABBCCDDEE01, 2: 2**64 - 1}  # the second address is the largest value the wire type (uint64) can carry
 HAND = {1: 0x10, 2: 0x20}
 
-GATT = {  # op kind -> (request message, response atom letter, default timeout)
-    "read": ("BluetoothGATTReadRequest", "R", 30.0),
-    "readd": ("BluetoothGATTReadDescriptorRequest", "R", 30.0),
-    "write": ("BluetoothGATTWriteRequest", "W", 30.0),
-    "writed": ("BluetoothGATTWriteDescriptorRequest", "W", 30.0),
-    "notify": ("BluetoothGATTNotifyRequest", "N", 10.0),
+GATT = {  # op kind -> (request message, response atom letter, timeout passed by the caller - deliberately not the default)
+    "read": ("BluetoothGATTReadRequest", "R", 31.0),
+    "readd": ("BluetoothGATTReadDescriptorRequest", "R", 32.0),
+    "write": ("BluetoothGATTWriteRequest", "W", 33.0),
+    "writed": ("BluetoothGATTWriteDescriptorRequest", "W", 34.0),
+    "notify": ("BluetoothGATTNotifyRequest", "N", 7.0),
 }
-DEV = {"pair": ("P", 2, 30.0), "unpair": ("U", 3, 30.0), "clear": ("K", 6, 30.0)}
+DEV = {"pair": ("P", 2, 27.0), "unpair": ("U", 3, 28.0), "clear": ("K", 6, 29.0)}
+DISC_TIMEOUT = 17.0
+CONN_TIMEOUT = 26.0
+CONN_DISC_TIMEOUT = 13.0
 ATOM_MSG = {
     "R": "BluetoothGATTReadResponse", "W": "BluetoothGATTWriteResponse", "N": "BluetoothGATTNotifyResponse", "E": "BluetoothGATTErrorResponse",
     "P": "BluetoothDevicePairingResponse", "U": "BluetoothDeviceUnpairingResponse", "K": "BluetoothDeviceClearCacheResponse",
@@ -149,9 +152,11 @@ class RefOp:
         elif self.kind in DEV:
             self.timeout = DEV[self.kind][2]
         elif self.kind == "disc":
-            self.timeout = 20.0
+            self.timeout = DISC_TIMEOUT
+        elif self.kind == "conn":
+            self.timeout = CONN_TIMEOUT
         else:
-            self.timeout = 30.0
+            self.timeout = 30.0  # get-services has no timeout parameter
         self.due = start + self.timeout
         self.state = "pending"  # pending | ok | gatt_error | dropped | timeout | closed | disc_wait (conn only)
         self.end_time: float | None = None
@@ -178,6 +183,10 @@ class RefOp:
                 if k == "conn" and letter in ("CU", "CD") and a == self.a:
                     m = atom_message(atom, n)
                     self.cb_expected.append((m.connected, m.mtu, m.error))
+                    if letter == "CD" and self.returned:
+                        # the harness's state callback drops its own subscription when the device is reported disconnected
+                        self.sub_live = False
+                        self.finned = True
                 if k == "notify" and letter == "D" and a == self.a and h == self.h:
                     self.cb_expected.append((HAND[h], atom_message(atom, n).data))
             elif k == "notify" and not self.returned and letter == "D" and a == self.a and h == self.h:
@@ -232,7 +241,7 @@ class RefOp:
         if self.state == "pending" and abs(self.due - when) < 1e-9:
             if self.kind == "conn":
                 self.state = "disc_wait"
-                self.disc_due = now + 20.0
+                self.disc_due = now + CONN_DISC_TIMEOUT
             else:
                 self.end("timeout", now)
         elif self.state == "disc_wait" and self.disc_due is not None and abs(self.disc_due - when) < 1e-9:
@@ -299,6 +308,7 @@ class BleWorld(ConnWorld):
         self.loop._before_cb = self._before
         self.loop._after_cb = self._after
         self.ref_closed = False
+        self.self_unsubbed: set[str] = set()
         self.armed = False
         self.ret_hook = self._ret
         self.disc_written: dict[str, float] = {}
@@ -389,27 +399,34 @@ class BleHarness:
         w.cbs[op] = []
         cbs = w.cbs[op]
         if kind == "read":
-            w.spawn(op, lambda: c.bluetooth_gatt_read(addr, hd))
+            w.spawn(op, lambda: c.bluetooth_gatt_read(addr, hd, timeout=GATT["read"][2]))
         elif kind == "readd":
-            w.spawn(op, lambda: c.bluetooth_gatt_read_descriptor(addr, hd))
+            w.spawn(op, lambda: c.bluetooth_gatt_read_descriptor(addr, hd, timeout=GATT["readd"][2]))
         elif kind == "write":
-            w.spawn(op, lambda: c.bluetooth_gatt_write(addr, hd, b"\x01\x02", True))
+            w.spawn(op, lambda: c.bluetooth_gatt_write(addr, hd, b"\x01\x02", True, timeout=GATT["write"][2]))
         elif kind == "writed":
-            w.spawn(op, lambda: c.bluetooth_gatt_write_descriptor(addr, hd, b"\x03"))
+            w.spawn(op, lambda: c.bluetooth_gatt_write_descriptor(addr, hd, b"\x03", timeout=GATT["writed"][2]))
         elif kind == "notify":
-            w.spawn(op, lambda: c.bluetooth_gatt_start_notify(addr, hd, lambda hh, data: cbs.append((hh, bytes(data)))))
+            w.spawn(op, lambda: c.bluetooth_gatt_start_notify(addr, hd, lambda hh, data: cbs.append((hh, bytes(data))), timeout=GATT["notify"][2]))
         elif kind == "pair":
-            w.spawn(op, lambda: c.bluetooth_device_pair(addr))
+            w.spawn(op, lambda: c.bluetooth_device_pair(addr, timeout=DEV["pair"][2]))
         elif kind == "unpair":
-            w.spawn(op, lambda: c.bluetooth_device_unpair(addr))
+            w.spawn(op, lambda: c.bluetooth_device_unpair(addr, timeout=DEV["unpair"][2]))
         elif kind == "clear":
-            w.spawn(op, lambda: c.bluetooth_device_clear_cache(addr))
+            w.spawn(op, lambda: c.bluetooth_device_clear_cache(addr, timeout=DEV["clear"][2]))
         elif kind == "disc":
-            w.spawn(op, lambda: c.bluetooth_device_disconnect(addr))
+            w.spawn(op, lambda: c.bluetooth_device_disconnect(addr, timeout=DISC_TIMEOUT))
         elif kind == "svc":
             w.spawn(op, lambda: c.bluetooth_gatt_get_services(addr))
         elif kind == "conn":
-            w.spawn(op, lambda: c.bluetooth_device_connect(addr, lambda conn, mtu, err: cbs.append((conn, mtu, err))))
+            # the connection-state callback of a device that was reported disconnected drops its own subscription (re-entrancy)
+            def on_state(conn: bool, mtu: int, err: int, _op: str = op) -> None:
+                cbs.append((conn, mtu, err))
+                if not conn and w.results.get(_op, ("",))[0] == "ok" and _op not in w.self_unsubbed:
+                    w.self_unsubbed.add(_op)
+                    w.results[_op][1]()
+
+            w.spawn(op, lambda: c.bluetooth_device_connect(addr, on_state, timeout=CONN_TIMEOUT, disconnect_timeout=CONN_DISC_TIMEOUT))
         else:
             raise HarnessError(op)
         # the request on the wire: exactly one frame, right type, address and handle
@@ -494,6 +511,7 @@ class BleHarness:
             r.sub_live = False
             val = w.results[op][1]
             if r.kind == "conn":
+                w.self_unsubbed.add(op)
                 val()
             else:
                 val[1]()  # remove_callback (no traffic)
@@ -569,7 +587,7 @@ class BleHarness:
         for op, r in w.ref.items():
             if r.kind != "conn" or r.disc_due is None:
                 continue
-            t_to = r.disc_due - 20.0
+            t_to = r.disc_due - CONN_DISC_TIMEOUT
             found = False
             ids = env.proto_name_to_id()
             for s in w.net.sockets:
@@ -673,6 +691,8 @@ CONFIGS: list[tuple[tuple[str, ...], tuple[str, ...]]] = [
     (("writed@1.1", "readd@1.1", "disc@1"), ()),
     (("conn@1", "conn@2"), ("disc@2",)),
     (("read@1.1",), ("readd@1.1", "write@1.1")),
+    # a lone subscriber of its message type that drops its own subscription from inside its callback
+    (("conn@1",), ("read@2.1",)),
 ]
 
 
